@@ -49,7 +49,7 @@ RULE = ("Predicates: ground-truth maps with exact rational data — Stinespring 
         "arguments are compared with a deep snapshot (arrays, list objects, elements).")
 ASSUMPTIONS = [
     "toqito receives the double rounding of the exact rational data handed to the Lean deciders (relative error 2^-53 per entry, far below rtol=1e-5/atol=1e-8); verdicts are compared only when the exact decider says yes (relation holds exactly / certified) or no (violated by >= 100*(atol+rtol*scale), or an explicit negative witness with that margin)",
-    "is_unitary / is_extremal / choi_rank decide through floating-point ranks: generated maps of rank >= 2 have their non-zero Choi eigenvalues >= 1e-3 (weights >= 1/64 on orthogonal or generic operators); choi_rank is only asked on inputs whose double image is exact (integers, dyadic rationals)",
+    "is_unitary / is_extremal / choi_rank decide through floating-point ranks: generated maps of rank >= 2 have their non-zero Choi eigenvalues >= 1e-3 (weights >= 1/64 on orthogonal or generic operators), except the weak-damping family (amplitude damping with gamma = 1.5e-5, 4e-6, 1e-6 between rational unitaries; non-zero Choi eigenvalues >= 1e-6 and smallest singular value of the extremality criterion matrix >= 500 * tol, tol = 1e-9); choi_rank is only asked on inputs whose double image is exact (integers, dyadic rationals)",
     "extremality: Choi's theorem (a CP map with linearly independent Kraus operators K_i is extremal among maps with the same sum K_i^dagger K_i iff {K_i^dagger K_j} is linearly independent) is cited, not proved; the Lean decider evaluates the criterion exactly on a basis of span{K_i}",
     "constructors with irrational square roots are compared at tolerance 1e-12 with the Lean closed form at rational roots (parameters gamma, p in {a^2/c^2}) or through their squared entries",
 ]
@@ -489,6 +489,20 @@ def gt_redundant(rng, d, how):
     return GT("redundant-zero-op", d, d, Ks, Ks, L=base.L, cp_list=True)
 
 
+def gt_weak_damping(rng, d, n):
+    """amplitude damping with a tiny rational damping amplitude s = 2n/(n^2+1), c = (n^2-1)/(n^2+1) (so gamma = s^2 ~ 4/n^2), between
+    rational unitaries: an extremal channel whose criterion matrix has its smallest singular value ~ 0.7 gamma - tiny, yet >= 500 * tol
+    for the n used here (tol = 1e-9 is is_extremal's default)"""
+    c, sn = Fraction(n * n - 1, n * n + 1), Fraction(2 * n, n * n + 1)
+    K0, K1 = Q.eye(d), Q.zeros(d, d)
+    K0.re[1, 1] = c
+    K1.re[0, 1] = sn
+    U = rational_unitary(rng, d, int(rng.integers(d, 2 * d + 1)))
+    V = rational_unitary(rng, d, int(rng.integers(d, 2 * d + 1)))
+    Ks = [U @ K0 @ V, U @ K1 @ V]
+    return GT("weak-damping", d, d, Ks, Ks, L=hcat([vec(K) for K in Ks]), cp_list=True, note=f"n={n}")
+
+
 def perturb(rng, base: GT, what):
     """Choi-form perturbation by eps = 1/64 of a CPTP base map"""
     di, do = base.di, base.do
@@ -510,6 +524,14 @@ def perturb(rng, base: GT, what):
             J.im[p, q] += eps
             J.im[q, p] += eps
         return GT("perturbed-herm", di, do, J=J)
+    if what == "hermdiag":
+        # the only departure from Hermiticity sits on the diagonal of the Choi matrix (an imaginary diagonal entry)
+        p = int(rng.integers(N))
+        J.im[p, p] += eps
+        if rng.integers(2):
+            q = int((p + 1 + rng.integers(N - 1)) % N)
+            J.im[q, q] -= eps
+        return GT("perturbed-hermdiag", di, do, J=J)
     if what == "cp":
         i = int(rng.integers(di))
         a, b = (int(x) for x in rng.choice(do, size=2, replace=False))
@@ -779,6 +801,11 @@ def _g8(rng, p):
 @gen("redundant")
 def _g9(rng, p):
     return gt_redundant(rng, p["d"], p["how"])
+
+
+@gen("weak-damping")
+def _g11(rng, p):
+    return gt_weak_damping(rng, p["d"], p["n"])
 
 
 @gen("perturbed")
@@ -1193,6 +1220,18 @@ def run(ctx, model_ok=True):
     run_choi_constructors(ctx, tally, quick)
     run_qubit_constructors(ctx, tally, quick)
     run_pauli(ctx, tally, quick)
+    # ---- maps whose Choi matrix fails to be Hermitian only on its diagonal (drawn after the streams above)
+    for _ in range(reps):
+        for (di, do) in ((2, 2), (2, 3), (3, 2), (3, 3), (4, 2)):
+            r = min(r for r in (1, 2, 3) if r * do >= di)
+            run_map(ctx, tally, "perturbed", {"di": di, "do": do, "r": r, "base": "stinespring", "what": "hermdiag"})
+        for d in (2, 3):
+            run_map(ctx, tally, "perturbed", {"di": d, "do": d, "r": 1, "base": "unitary", "what": "hermdiag"})
+    # ---- extremal channels that are nearly degenerate: smallest singular value of the criterion matrix ~ 1e-5 ... 7e-7 (>= 500 tol)
+    for _ in range(reps):
+        for d in (2, 3):
+            for n in (512, 1000, 2000):
+                run_map(ctx, tally, "weak-damping", {"d": d, "n": n})
     # ---- lists that mix real-valued and complex operators, a real one in front (drawn last: the streams above are as before)
     for _ in range(reps):
         for d in (2, 3, 4):
